@@ -8,12 +8,16 @@ HalfPatterns == {{}, {0}, {3}, {1, 2}, {0, 3}, {0, 1, 2}, {1, 2, 3}, {0, 1, 2, 3
 Data == IF Source = "file" THEN JsonDeserialize(IOEnv.TRACE_FILE) ELSE [graphs |-> <<>>]
 VARIABLES gid, st
 vars == <<gid, st>>
-Init == \/ (Source = "enum" /\ gid = 0 /\ \E live \in [0..3 -> Patterns] : st = CapInit(live, 4))
+\* the uniform-pattern family: every vertex of the order-k graph keeps the same non-empty nucleotide set P; it is |P|-regular
+Init == \/ (Source = "uniform" /\ \E k \in 1..5, P \in (SUBSET (0..3)) \ {{}} : gid = 100 * k + FoldSet(LAMBDA j, a : a + 2^j, 0, P)
+                                                                              /\ st = CapInitLight([v \in 0..(4^k - 1) |-> P], 4^k))
+        \/ (Source = "enum" /\ gid = 0 /\ \E live \in [0..3 -> Patterns] : st = CapInit(live, 4))
         \/ (Source = "file" /\ gid \in 1..Len(Data.graphs) /\ st = CapInit(LiveFn(Data.graphs[gid]), Len(Data.graphs[gid])))
 Next == st.ph # "done" /\ st' = CapStep(st) /\ UNCHANGED gid
 Spec == Init /\ [][Next]_vars
 Le4 == EstimatesLe4(st)
 RegExact == RegularExact(st)
+UniformIsRegular == (Source = "uniform" /\ st.ph # "scc") => st.reg = Cardinality(st.out[0])
 CwOk == CwOrdered(st)
 LoUp == [][(st.ph = "cw" /\ st'.ph \in {"cw", "done"} /\ st.n >= 2) => MulGe(st'.lo[1], st.lo[2], st.lo[1], st'.lo[2])]_vars
 HiDown == [][(st.ph = "cw" /\ st'.ph \in {"cw", "done"} /\ st.n >= 2) => MulGe(st.hi[1], st'.hi[2], st'.hi[1], st.hi[2])]_vars
